@@ -5,6 +5,7 @@ import (
 	"context"
 	"encoding/json"
 	"fmt"
+	"os"
 	"path"
 	"path/filepath"
 	"sort"
@@ -44,6 +45,9 @@ type Case struct {
 	// Global: call the package-level function (which works on the process-wide OS filesystem) instead of the method of
 	// the filesystem object (OS backend only)
 	Global bool `json:"package_level_function,omitempty"`
+	// CwdIsDest: the working directory of the process is the destination (OS backend): what the limits count does not
+	// depend on where the process happens to stand
+	CwdIsDest bool `json:"working_directory_is_the_destination,omitempty"`
 }
 
 // ---- reference accounting ---------------------------------------------------------------------------------
@@ -298,6 +302,7 @@ func genCase(t *rapid.T) Case {
 	r := reference(&c.Archive, c.Limits.Recursive && c.Limits.Apply)
 	mf, tot, cnt, dep := r.needs()
 	c.Global = c.Backend == "os" && rapid.IntRange(0, 2).Draw(t, "package-level") == 0
+	c.CwdIsDest = c.Backend == "os" && rapid.IntRange(0, 3).Draw(t, "cwd-is-dest") == 0
 	generous = rapid.IntRange(0, 2).Draw(t, "generous") == 0
 	focus = ""
 	if rapid.IntRange(0, 2).Draw(t, "focused") == 0 {
@@ -372,6 +377,13 @@ func checkCase(t ev.T, test string, c Case) {
 		limits = filesystem.NewLimits(L.FileSize, L.TotalSize, L.FileCount, L.Depth, L.Recursive)
 	}
 	recursive := L.Apply && L.Recursive
+	if c.CwdIsDest && c.Backend == "os" {
+		_ = box.Raw.MkdirAll(dest, 0o755)
+		wd, _ := os.Getwd()
+		if err := os.Chdir(dest); err == nil {
+			defer func() { _ = os.Chdir(wd) }()
+		}
+	}
 	box.Backend.Reset()
 	var uerr error
 	ev.Guard(t, prop, test, c, func() {
